@@ -1,4 +1,5 @@
 import Apko.Model.Confine
+import Apko.Generated.TransConfine
 /-! line-protocol handlers for corr:confine (property C18)
 
 * `cf.san <base> <p>` / `cf.arch <d> <t>`            lexical vetting: `ok <v>` | `tainted`
@@ -79,6 +80,17 @@ def goHasEffect (go : String) : Bool :=
 
 def handle (args : List String) : Option String :=
   match args with
+  -- `tc.*`: the check on the Go → Lean translator (extract/trans.go): impl = the regenerated translation of the Go
+  -- function, spec = the hand-written model (equal for all inputs by Proofs/TransConfine.lean while that file checks)
+  | ["tc.san", b, p] =>
+    some (optS "tainted" (Generated.Trans.sanitizePath (unhexS b) (unhexS p)) ++ "\t" ++
+      optS "tainted" (sanitizePath (unhexS b) (unhexS p)) ++ "\tunlisted")
+  | ["tc.arch", d, t] =>
+    some (optS "tainted" (Generated.Trans.sanitizeArchivePath (unhexS d) (unhexS t)) ++ "\t" ++
+      optS "tainted" (sanitizeArchivePath (unhexS d) (unhexS t)) ++ "\tunlisted")
+  | ["tc.etagfile", cf, etag] =>
+    some (optS "err" (Generated.Trans.cacheFileFromEtag (unhexS cf) (unhexS etag)) ++ "\t" ++
+      optS "err" (cacheFileFromEtag (unhexS cf) (unhexS etag)) ++ "\tunlisted")
   | ["cf.san", b, p] =>
     let r := optS "tainted" (sanitizePath (unhexS b) (unhexS p))
     some <| triple r r "unlisted"
